@@ -31,3 +31,17 @@ Definition protected_parent_prog : list pop :=
 
 Lemma protected_strict : check_all protected_parent_prog Gen.Subproc.child_prog true true = true.
 Proof. vm_cast_no_check (@eq_refl bool true). Qed.
+
+(* reference: the current parent program with process.join() moved in front of rx.recv().  With the
+   capacity of the pipe buffer in the model (Model/Subproc.v, parent_receiving) it fails the sweep: for
+   a large result the child blocks in write() while the parent blocks in join(). *)
+Definition join_first_parent_prog : list pop :=
+  [ PRequirePipe; PPipe; PMkProcess; PStart; PCloseTx; PNewEvent; PGetLoop; PAddReader;
+    PIfNotPollWaitH 4; PRemoveReader; PKill; PJoin; PCloseRx; PReraise;
+    PRemoveReader; PClearEvent;
+    PJoin;
+    PRecvDefer [([EOFErrorC; OSErrorC], PASetChildProcessError)]; PCloseRx; PReraise;
+    PRaiseIfError; PReturn ].
+
+Lemma join_first_fails_sweep : check_all join_first_parent_prog Gen.Subproc.child_prog true true = false.
+Proof. vm_cast_no_check (@eq_refl bool false). Qed.
